@@ -34,6 +34,9 @@ def content_for(cls, i):
         return ("local   v%d   =   %d\n" % (i, i)).encode()
     if cls == "empty":
         return b""
+    if cls == "nonl":
+        # differs from its formatted form only in the missing final newline
+        return ("local v%d = %d" % (i, i)).encode()
     if cls == "text":
         return ("not lua %d {{{\n" % i).encode()
     raise ValueError(cls)
